@@ -88,6 +88,12 @@ def _gen_frame(rng, world, prop, allow_inject, want_pure=False):
             j = rng.randrange(n_feat)
             feat = world["features"][j]
             kind = rng.choice(UNSEEN_KINDS)
+            if kind == "unseen_nan":
+                # a missing value is a fault where none was seen at fit: prefer such a feature
+                clean = [k for k, f in enumerate(world["features"]) if all(v is not None for v in f["values"])]
+                if clean and rng.random() < 0.7:
+                    j = rng.choice(clean)
+                    feat = world["features"][j]
             payload = None
             if feat["kind"] == "quant":
                 if kind in ("unseen_category", "equal_other_type", "borrowed_category"):
@@ -726,6 +732,34 @@ class Session:
                     {"kind": model.kind[feat], "dtype": model.output_dtype},
                 )
 
+    def check_unseen_nan_rejected(self, frame, meta, where):
+        """C05, read on the training data rather than on the fitted state: a missing value in a kept
+        feature that had none at fit must be refused (unless an edit gave missing values a group)."""
+        cls = self.world["sut"]["class"]
+        if cls == "BaseDiscretizer":
+            return  # hand-built orders decide by themselves whether missing values are known
+        for row, col, kind in meta.get("injected", []):
+            if kind != "unseen_nan" or meta["base"] not in ("train", "dev"):
+                continue
+            if not is_nan(py(frame[col].iloc[row])):
+                continue  # a later injection overwrote the cell
+            feat = [f for f in self.world["features"] if f["name"] == col][0]
+            if any(v is None for v in feat["values"]):
+                continue
+            if cls == "ChainedDiscretizer" and self.world["sut"]["params"].get("unknown_handling") == "drop":
+                continue  # unknown values are merged with the missing values there
+            if col in getattr(self, "nan_edited_raw", set()):
+                continue
+            kept = [f for f in self.model.features if self.model.raw_of(f) == col]
+            if not kept:
+                continue
+            raise _Fail(
+                "C05",
+                "nan_unseen_at_fit_must_be_rejected",
+                f"{where}: feature {col} had no missing value at fit, a frame with a missing value in it was accepted",
+                {"kind": feat["kind"]},
+            )
+
     def check_shape(self, prop, frame, arg, out, where):
         """C07 (d): index, columns, non-feature columns; (e) inputs untouched with copy=True."""
         model = self.model
@@ -739,6 +773,9 @@ class Session:
         extra = [c for c in out_cols[len(in_cols) :] if c not in model.features]
         if extra:
             raise _Fail(prop, "columns_preserved", f"{where}: unexpected new columns {extra}")
+        absent = [c for c in model.features if c not in out_cols]
+        if absent:
+            raise _Fail(prop, "fitted_columns_present", f"{where}: fitted columns {absent} missing from the output ({len(out)} rows)")
         fitted = set(model.features)
         for col in in_cols:
             if col in fitted:
@@ -867,6 +904,8 @@ class Session:
                 self.check_model(target, frame, outcome, where)
             if not meta["pure"]:
                 self.nontrivial_flags.add("unseen")
+            if prop == "C05" and outcome[0] == "ok":
+                self.check_unseen_nan_rejected(frame, meta, where)
         if prop == "C07":
             if state_digest(self.live) != before:
                 raise _Fail("C07", "transform_leaves_state", f"{where}: fitted state changed by transform")
@@ -1127,6 +1166,9 @@ class Session:
             # missing values grouped by hand receive their group's label from now on, also when
             # they already were in that group (the call then only warns)
             model.dropna[feat] = True
+            if not hasattr(self, "nan_edited_raw"):
+                self.nan_edited_raw = set()
+            self.nan_edited_raw.add(model.raw_of(feat))
         # labels the object gives to quantitative 'str' groups are read back (only injectivity is demanded)
         model.given_labels = {
             f: {vkey(py(k)): py(v) for k, v in self.live.labels_per_values.get(f, {}).items()} for f in model.features
